@@ -11,6 +11,7 @@ import ast
 
 from ..callgraph import CallGraph
 from ..cfg import EXIT, build as build_cfg
+from ..facts import Facts, direct, has, has_call, has_const, param_of
 from ..index import AnalysisError, unparse, walk_no_nested
 from .. import query as Q
 from ..rules import graph as G
@@ -37,105 +38,105 @@ def _write_effects(repo, cg, fi, depth=5):
     return out
 
 
+def _facts(ctx):
+    f = getattr(ctx, '_facts', None)
+    if f is None:
+        f = ctx._facts = Facts(ctx.repo)
+    return f
+
+
+def _truncating_opens(F, fn, depth=2):
+    out = []
+    for e in F.effects(fn, lambda e: e.name == 'open' and isinstance(
+            e.call.func, ast.Name), depth=depth):
+        mode = e.call.args[1] if len(e.call.args) > 1 else Q.kwarg(
+            e.call, 'mode')
+        if isinstance(mode, ast.Constant) and isinstance(
+                mode.value, str) and 'w' in mode.value:
+            out.append(e)
+    return out
+
+
 def write_order(ctx):
     R = 'WRITE-ORDER'
-    ctx.rule(R, '(a) in configure/regenerate the build-file writers are '
-             'dominated by the return of configure_build; (b) in each '
-             'backend write() all hooks and rule handlers run before the '
-             'build file is opened for writing; (c) no file that the lazy-'
-             'skip decision reads (the find cache) is written before the '
-             'build file in the same run')
+    ctx.rule(R, '(a) in configure/regenerate the build-file writers run '
+             'only after configure_build returned and consume its result, '
+             'and the environment is saved before the script runs; (b) in '
+             'each backend write() all hooks and rule handlers run, and the '
+             'whole file is rendered, before the build file is opened for '
+             'writing, and nothing but the copy of the rendered text runs '
+             'while it is open; (c) no file that the lazy-skip decision '
+             'reads (the find cache) is written before the build file in '
+             'the same run')
     repo = ctx.repo
+    F = _facts(ctx)
     cg = CallGraph(repo)
     # (a)
     for fn in ('configure', 'regenerate'):
-        f = repo.func(D + fn)
-        g = build_cfg(f.node)
-        cb = [g.stmt_of(c) for c in Q.calls(f.node, nested=False)
-              if unparse(c.func) == 'build.configure_build']
-        wr = [g.stmt_of(c) for c in Q.calls(f.node, nested=False)
-              if unparse(c.func) in ('backend.write', 'compdb.write')]
-        Q.require(len(cb) == 1 and len(wr) == 2,
-                  fn + ': configure_build / write calls not found')
+        f = F.fn(D + fn)
+        cb = F.calls_to(f, 'configure_build', depth=0)
+        wr = [e for e in F.effects(f, lambda e: e.name == 'write', depth=0)
+              if has_call(e.all_args(), 'configure_build')]
+        ctx.ob(R, fn + '|writers-use-configure_build-result',
+               len(cb) >= 1 and len(wr) >= 2, f.node,
+               'the build file / compile_commands writers do not consume '
+               'the result of configure_build')
         for w in wr:
+            nm = sorted(w.heads())[0].split('.')[0] if w.heads() else '?'
             ctx.ob(R, '{}|configure_build-dominates|{}'.format(
-                fn, unparse(w)[:40]), g.dominates(cb[0], w), w,
+                fn, 'compdb' if 'compdb' in nm else 'backend'),
+                any(F.always_before(c, w) for c in cb), w.call,
                 'a build file can be written although the build script did '
                 'not finish')
-        # the writers consume the result of configure_build
-        bi = [unparse(v) for v in Q.local_assignments(f.node, 'build_inputs')
-              if v is not None]
-        ok = len(bi) == 1 and bi[0].startswith('build.configure_build(')
-        ctx.ob(R, fn + '|writers-use-configure_build-result', ok, f.node,
-               'build_inputs does not come from configure_build')
-        # env.save before the script runs (so a failed script still leaves a
-        # loadable environment for the next attempt)
-        sv = [g.stmt_of(c) for c in Q.calls(f.node, nested=False)
-              if unparse(c.func) == 'env.save']
-        ok = len(sv) == 1 and g.dominates(sv[0], cb[0])
+        sv = [e for e in F.calls_to(f, 'save', depth=0)
+              if not has_call(e.recv(), 'FindCacheFile')]
+        ok = bool(sv) and bool(cb) and all(
+            any(F.always_before(s_, c) for s_ in sv) for c in cb)
         ctx.ob(R, fn + '|env-saved-before-script', ok, f.node,
                'the environment file is not saved before the script runs')
     # (b) + (c)
     reg = G.Registry(repo)
     for b in ('make', 'ninja'):
-        w = repo.func(G.BACKEND_WRITERS[b] + ':write')
-        g = build_cfg(w.node)
-        opens = [n for n in walk_no_nested(w.node) if isinstance(n, ast.With)
-                 and any(isinstance(i.context_expr, ast.Call) and unparse(
-                     i.context_expr.func) == 'open' and 'filepath' in unparse(
-                         i.context_expr) for i in n.items)]
-        Q.require(len(opens) == 1, b + '.write: open(filepath) not found')
+        w = F.fn(G.BACKEND_WRITERS[b] + ':write')
+        opens = _truncating_opens(F, w)
+        ok = len(opens) == 1 and has(opens[0].arg(0), 'filepath')
+        ctx.ob(R, b + '.write|opens-build-file-for-write', ok, w.node,
+               'the build file is not opened (once) for writing')
+        if not opens:
+            continue
         op = opens[0]
-        mode = op.items[0].context_expr.args[1] if len(
-            op.items[0].context_expr.args) > 1 else None
-        ok = mode is not None and isinstance(mode, ast.Constant) and \
-            mode.value == 'w'
-        ctx.ob(R, b + '.write|opens-build-file-for-write', ok, op, '')
-        for callee in ('pre_rules_hook.run', 'rule_handler.run',
-                       'post_rules_hook.run'):
-            cs = [g.stmt_of(c) for c in Q.calls(w.node, nested=False)
-                  if unparse(c.func) == callee]
-            ok = len(cs) == 1 and g.dominates(cs[0], op) and \
-                cs[0] is not op and not _inside(cs[0], op)
-            ctx.ob(R, '{}.write|{}-before-open'.format(b, callee), ok, w.node,
-                   '{} runs after the build file was truncated: an '
-                   'exception in rule emission destroys the previous build '
-                   'file'.format(callee))
-        # (d) the file is rendered completely before it is opened: nothing
-        # that can raise for script-dependent reasons (escape_str rejects a
-        # line break, unknown fragment types, ...) may run between the
-        # truncation and the end of the write
-        renders = [c for c in Q.calls(w.node, nested=False)
-                   if unparse(c.func) == 'buildfile.write']
-        ctx.ob(R, b + '.write|build-file-rendered', len(renders) == 1, w.node,
-               'the build file content is not produced by buildfile.write')
-        inside_calls = [c for st_ in op.body for c in ast.walk(st_)
-                        if isinstance(c, ast.Call)]
-        risky = []
-        for c in inside_calls:
-            t = unparse(c.func)
-            if t.endswith('.getvalue') or (t.endswith('.write') and
-                                           t != 'buildfile.write'):
-                continue
-            risky.append(c)
-        reach_raise = []
-        if risky:
-            bf = {'make': 'bfg9000.backends.make.syntax:Makefile.write',
-                  'ninja': 'bfg9000.backends.ninja.syntax:NinjaFile.write'}[b]
-            if repo.has_func(bf):
-                for fq, (d, path) in cg.reachable(
-                        [repo.func(bf)], 6).items():
-                    for n_ in ast.walk(repo.functions[fq].node):
-                        if isinstance(n_, ast.Raise):
-                            reach_raise.append((fq, n_))
+        for callee in ('pre_rules_hook', 'rule_handler', 'post_rules_hook'):
+            cs = [e for e in F.effects(w, lambda e: e.name == 'run',
+                                       depth=2)
+                  if any(h.endswith(callee + '.run') for h in e.heads())]
+            ok = len(cs) >= 1 and all(F.always_before(e, op) for e in cs)
+            ctx.ob(R, '{}.write|{}.run-before-open'.format(b, callee), ok,
+                   w.node, '{} runs after the build file was truncated '
+                   '(or not at all): an exception in rule emission destroys '
+                   'the previous build file'.format(callee))
+        # (d) the file is rendered completely before it is opened
+        cls = {'make': 'Makefile', 'ninja': 'NinjaFile'}[b]
+        renders = [e for e in F.effects(w, lambda e: e.name == 'write',
+                                        depth=2)
+                   if has_call(e.recv(), cls)]
+        ok = len(renders) >= 1 and all(F.always_before(e, op)
+                                       for e in renders)
+        ctx.ob(R, b + '.write|build-file-rendered-before-open', ok, w.node,
+               'the build file content is not produced (by <buildfile>.'
+               'write) before the real file is truncated')
+        risky = [e for e in F.effects(w, lambda e: True, depth=2)
+                 if has_call(e.withs(), 'open') and has(e.withs(),
+                                                        'filepath')
+                 and not (e.name in ('write', 'getvalue', 'close', 'flush',
+                                     'writelines') and
+                          (has_call(e.recv(), 'open') or
+                           has_call(e.recv(), 'StringIO')))]
         ctx.ob(R, b + '.write|nothing-can-raise-while-file-is-truncated',
-               not risky, op,
+               not risky, w.node,
                'calls run while the build file is open for writing (already '
-               'truncated): {}; they reach {} raise statements (e.g. {}), so '
-               'an emission error leaves a truncated build file'.format(
-                   [unparse(c)[:40] for c in risky], len(reach_raise),
-                   reach_raise[0][0] if reach_raise else '-'))
-        # (c) ordered persistent writes before the build file
+               'truncated): {}; an emission error there leaves a truncated '
+               'build file'.format([unparse(e.call)[:40] for e in risky]))
+    # (c) ordered persistent writes before the build file
         hooks = [(h, 'pre') for h in reg.hooks[b]['pre']] + \
             [(h, 'post') for h in reg.hooks[b]['post']] + \
             [(h, 'handler') for h in sorted(
@@ -175,9 +176,9 @@ def write_order(ctx):
                            'by the lazy-skip decision'.format(fq))
         ctx.stat(b + '_writes_before_build_file', n_eff)
     # the skip decision reads only the cache file (and mtimes)
-    fcc = repo.func(FIND + 'find_check_cache')
-    ok = any(unparse(c.func) == 'FindCacheFile.load'
-             for c in Q.calls(fcc.node))
+    fcc = F.fn(FIND + 'find_check_cache')
+    ok = any(has(e.heads(), 'FindCacheFile', 'load')
+             for e in F.calls_to(fcc, 'load', depth=2))
     ctx.ob(R, 'find_check_cache|reads-cache', ok, fcc.node,
            'anchor: the lazy-skip decision no longer reads FindCacheFile')
 
@@ -197,67 +198,85 @@ def _read_by(repo, cg, writer_fq):
     return writer_fq == FIND + 'FindCacheFile.save'
 
 
+def _nonzero(F, expr, fn, _depth=0):
+    """`expr` (evaluated in fn) can never be 0/None/False: a truthy
+    constant, a repository call all of whose returns are non-zero (and
+    which cannot fall off its end), a conditional of those, a local bound
+    only to those, or the `.code` of a ScriptExitError (constructed only
+    with a truthy code -- checked separately) under an isinstance guard."""
+    if _depth > 4 or expr is None:
+        return False
+    if isinstance(expr, ast.Constant):
+        return bool(expr.value)
+    if isinstance(expr, ast.IfExp):
+        return _nonzero(F, expr.body, fn, _depth) and _nonzero(
+            F, expr.orelse, fn, _depth)
+    if isinstance(expr, ast.BoolOp) and isinstance(expr.op, ast.Or):
+        return _nonzero(F, expr.values[-1], fn, _depth)
+    if isinstance(expr, ast.Name):
+        ds = F.flow.defs(fn.node).get(expr.id)
+        if ds and all(k == 'value' for k, e, i in ds) and \
+                expr.id not in Q.params(fn.node):
+            return all(_nonzero(F, e, fn, _depth + 1) for k, e, i in ds)
+        return False
+    if isinstance(expr, ast.Attribute) and expr.attr == 'code':
+        tests = [t for t, pos in F.guards_pol(expr, fn) if pos]
+        return any(has_call(F.atoms(t, fn), 'isinstance') and has(
+            F.atoms(t, fn), 'ScriptExitError') for t in tests)
+    if isinstance(expr, ast.Call):
+        callee = F.flow.resolve_call(expr, fn)
+        if callee is None:
+            return False
+        g = F.cfg(callee)
+        rets = Q.returns(callee.node)
+        falls = g.reaches('ENTRY', EXIT, avoiding=set(rets))
+        return bool(rets) and not falls and all(
+            _nonzero(F, r.value, callee, _depth + 1) for r in rets)
+    return False
+
+
 def exit_status(ctx):
     R = 'EXIT-STATUS'
     ctx.rule(R, 'every except clause of configure/regenerate/env/run either '
              'is the AbortConfigure pass or returns a status that cannot be '
              '0/None; ScriptExitError is only constructed with a truthy '
-             'code; AbortConfigure is raised at exactly one site, after the '
-             'outputs were touched')
+             'code; AbortConfigure is raised only by find_check_cache, '
+             'after the outputs were touched and only when a lazy check '
+             'found nothing changed')
     repo = ctx.repo
-    hre = repo.func(D + 'handle_reload_exception')
-
-    def nonzero_return(fn_node, r):
-        v = r.value
-        if v is None:
-            return False
-        if isinstance(v, ast.Constant):
-            return bool(v.value) and v.value is not True or v.value is True
-        if isinstance(v, ast.IfExp):
-            t = unparse(v.test)
-            a, b = v.body, v.orelse
-            if t in ('isinstance(e, build.ScriptExitError)',
-                     'isinstance(e, ScriptExitError)') and \
-                    unparse(a) == 'e.code':
-                return isinstance(b, ast.Constant) and bool(b.value)
-            return False
-        if isinstance(v, ast.Call) and unparse(v.func) == \
-                'handle_reload_exception':
-            return all(nonzero_return(hre.node, rr)
-                       for rr in Q.returns(hre.node)) and bool(
-                           Q.returns(hre.node))
-        return False
-
+    F = _facts(ctx)
     n = 0
     for fn in ('configure', 'regenerate', 'env', 'run'):
-        f = repo.func(D + fn)
+        f = F.fn(D + fn)
         tries = [t for t in walk_no_nested(f.node) if isinstance(t, ast.Try)]
         Q.require(tries, fn + ': no try block')
+        catches_all = False
         for t in tries:
-            catches_all = False
             for h in t.handlers:
                 n += 1
                 ty = unparse(h.type) if h.type is not None else '<bare>'
                 key = '{}|except {}'.format(fn, ty)
-                if ty == 'AbortConfigure':
-                    ok = all(isinstance(s, ast.Pass) for s in h.body)
+                if ty.split('.')[-1] == 'AbortConfigure':
+                    ok = not any(isinstance(s, (ast.Return, ast.Raise))
+                                 for s in ast.walk(h)) or all(
+                        isinstance(s, ast.Pass) for s in h.body)
                     ctx.ob(R, key, ok, h, 'AbortConfigure handler does '
                            'more than pass')
                     continue
                 if ty in ('Exception', 'BaseException', '<bare>'):
                     catches_all = True
-                # every path through the handler ends in a non-zero return
                 g = build_cfg(_as_func(h))
                 rets = [s for s in ast.walk(h) if isinstance(s, ast.Return)]
                 falls = g.reaches('ENTRY', EXIT, avoiding=set(rets))
                 ok = bool(rets) and not falls and all(
-                    nonzero_return(f.node, r) for r in rets)
+                    _nonzero(F, r.value, f) for r in rets)
                 ctx.ob(R, key, ok, h,
                        'a failure handled by `except {}` in {} can end with '
                        'exit status 0/None (success)'.format(ty, fn))
-            ctx.ob(R, fn + '|catches-Exception', catches_all, t,
-                   'unexpected exceptions are not converted to a status')
-    ctx.require_min(R, n, 6, 'except clauses in driver commands')
+        ctx.ob(R, fn + '|catches-Exception', catches_all, f.node,
+               'unexpected exceptions are not converted to a status')
+    ctx.ob(R, 'driver-commands|handlers-found', n >= 6, None,
+           'only {} except clauses found in the driver commands'.format(n))
     # ScriptExitError constructions
     cons = []
     for m, c in Q.all_calls(repo):
@@ -265,83 +284,89 @@ def exit_status(ctx):
             cons.append((m, c))
     Q.require(cons, 'ScriptExitError is never constructed')
     for m, c in cons:
-        p = c
-        guarded = False
-        while p is not None:
-            if isinstance(p, ast.If) and unparse(p.test) in ('e.code',):
-                guarded = True
-            p = getattr(p, '_parent', None)
-        ok = guarded and len(c.args) == 2 and unparse(c.args[1]) == 'e.code'
-        ctx.ob(R, 'ScriptExitError|truthy-code|' + repo.site(c).split(
-            ' ')[-1], ok, c, 'ScriptExitError may carry a zero/None code: '
-            'a failing script would be reported as success')
-    see = repo.cls('bfg9000.build:ScriptExitError')
-    init = see.methods.get('__init__')
-    ok = init is not None and any(unparse(n) == 'self.code = code'
-                                  for n in ast.walk(init))
-    ctx.ob(R, 'ScriptExitError|stores-code', ok, see.node, '')
-    # SystemExit with a falsy code is success: only `if e.code` raises
-    ex = repo.func('bfg9000.build:_execute_script')
-    hs = [h for h in ast.walk(ex.node) if isinstance(h, ast.ExceptHandler)]
-    ok = len(hs) == 1 and unparse(hs[0].type) == 'SystemExit'
+        fn = repo.enclosing_func(c)
+        code = Q.arg(c, 1, 'code')
+        ok = fn is not None and code is not None
+        if ok:
+            ca = direct(F.atoms(code, fn))
+            ok = has(ca, 'code') and any(
+                pos and direct(F.atoms(t, fn)) & ca
+                for t, pos in F.guards_pol(c, fn))
+        ctx.ob(R, 'ScriptExitError|truthy-code|({})'.format(
+            fn.qualname if fn else m.name), ok, c,
+            'ScriptExitError may carry a zero/None code: a failing script '
+            'would be reported as success')
+    see = F.fn('bfg9000.build:ScriptExitError.__init__')
+    v = F.stored(see, 'code')
+    ctx.ob(R, 'ScriptExitError|stores-code', v is not None and param_of(
+        v, 'code'), see.node, 'the exit code is not kept')
+    ex = F.fn('bfg9000.build:_execute_script')
+    hs = [h for g_ in F.reach(ex, 1) if g_.module is ex.module
+          for h in ast.walk(g_.node) if isinstance(h, ast.ExceptHandler)]
+    ok = bool(hs) and all(h.type is not None and unparse(h.type) ==
+                          'SystemExit' for h in hs)
     ctx.ob(R, '_execute_script|only-SystemExit-caught', ok, ex.node,
            'script exceptions other than SystemExit are swallowed')
     # AbortConfigure raise sites
     raises = []
     for m in repo.modules.values():
-        for n in ast.walk(m.tree):
-            if isinstance(n, ast.Raise) and n.exc is not None and \
-                    'AbortConfigure' in unparse(n.exc):
-                raises.append((m, n))
-    ctx.ob(R, 'AbortConfigure|single-raise-site', len(raises) == 1 and
-           repo.enclosing_func(raises[0][1]).fq == FIND + 'find_check_cache',
+        for n_ in ast.walk(m.tree):
+            if isinstance(n_, ast.Raise) and n_.exc is not None and \
+                    'AbortConfigure' in unparse(n_.exc):
+                raises.append((m, n_))
+    fcc = F.fn(FIND + 'find_check_cache')
+    ok = bool(raises) and all(F.only_called_from(
+        repo.enclosing_func(r), {fcc.fq}) for m, r in raises)
+    ctx.ob(R, 'AbortConfigure|single-raise-site', ok,
            raises[0][1] if raises else None,
-           'AbortConfigure (silent success) is raised at {} sites'.format(
-               len(raises)))
-    if raises:
-        f = repo.enclosing_func(raises[0][1])
-        g = build_cfg(f.node)
-        loops = [n for n in walk_no_nested(f.node) if isinstance(n, ast.For)
-                 and unparse(n.iter) == 'regen_files.outputs' and any(
-                     Q.callee_attr(c) == 'touch' for c in Q.calls(n))]
-        ok = len(loops) == 1 and g.dominates(loops[0], raises[0][1])
-        ctx.ob(R, 'find_check_cache|touch-dominates-abort', ok,
-               raises[0][1], 'configuration is aborted silently without '
-               'touching every declared output first')
-        # the abort is only reached when nothing changed
-        par = raises[0][1]._parent
-        ok = isinstance(par, ast.If) and unparse(par.test) == \
-            'not regenerate'
-        ctx.ob(R, 'find_check_cache|abort-only-if-unchanged', ok,
-               raises[0][1], 'abort is not guarded by `not regenerate`')
-        upd = [n for n in ast.walk(f.node) if isinstance(n, ast.Assign) and
-               unparse(n.targets[0]) == 'regenerate' and
-               'results[0] != found' in unparse(n.value) and
-               'results[1] != extra' in unparse(n.value) and
-               'regenerate or' in unparse(n.value)]
-        ctx.ob(R, 'find_check_cache|compares-found-and-extra', len(upd) == 1,
-               f.node, 'the skip decision does not compare both the found '
-               'and the extra lists of every cached filter')
-        lazy = f.node.body[0]
-        ok = isinstance(lazy, ast.If) and unparse(lazy.test) == \
-            'context.regenerating is not Regenerating.lazy' and isinstance(
-                lazy.body[0], ast.Return)
-        ctx.ob(R, 'find_check_cache|only-when-lazy', ok, f.node,
-               'the skip path can be taken by a non-lazy configure/'
-               'regenerate')
-        mt = [n for n in walk_no_nested(f.node) if isinstance(n, ast.If) and
-              'regen_files.inputs' in unparse(n.test) and
-              'regen_files.outputs' in unparse(n.test)]
-        ok = len(mt) == 1 and 'max(' in unparse(mt[0].test) and 'min(' in \
-            unparse(mt[0].test) and isinstance(mt[0].body[0], ast.Return) \
-            and mt[0].lineno < raises[0][1].lineno
-        ctx.ob(R, 'find_check_cache|newer-inputs-force-regeneration', ok,
-               f.node, 'an input newer than an output does not force a '
-               'full regeneration')
-    # main returns the command status
-    mn = repo.func(D + 'main')
-    rets = Q.returns(mn.node)
-    ok = len(rets) == 1 and unparse(rets[0].value).startswith('args.func(')
+           'AbortConfigure (silent success) is raised outside '
+           'find_check_cache')
+    ab = F.effects(fcc, lambda e: e.name == 'AbortConfigure', depth=2)
+    touches = [e for e in F.effects(fcc, lambda e: e.name == 'touch',
+                                    depth=2)
+               if has(e.arg(0), 'outputs')]
+    ok = bool(ab) and bool(touches) and all(
+        any(F.always_before(t, a) for t in touches) for a in ab)
+    ctx.ob(R, 'find_check_cache|touch-dominates-abort', ok, fcc.node,
+           'configuration is aborted silently without touching every '
+           'declared output first')
+    rs = [n_ for n_ in walk_no_nested(fcc.node) if isinstance(n_, ast.Raise)]
+    ctl = set()
+    for n_ in rs:
+        ctl |= F.control(n_, fcc)
+    from ..rules.regen import _allocs
+    adds = [e for e in F.calls_to(fcc, 'add', depth=1)
+            if has(e.recv(), "['find_cache']")]
+    a1 = a2 = set()
+    for e in adds:
+        a1 = _allocs(e.arg(1, kw='found')) - _allocs(e.arg(2, kw='extra'))
+        a2 = _allocs(e.arg(2, kw='extra')) - _allocs(e.arg(1, kw='found'))
+    ok = bool(rs) and bool(a1 & ctl) and bool(a2 & ctl) and has_call(
+        ctl, 'load')
+    ctx.ob(R, 'find_check_cache|compares-found-and-extra', ok, fcc.node,
+           'the skip decision does not compare both the found and the '
+           'extra lists of every cached filter')
+    ok = bool(rs) and all(any(
+        op in ('Is', 'Eq') and (has(l, 'Regenerating', 'lazy') or
+                                has(r, 'Regenerating', 'lazy'))
+        for op, l, r in F.guard_compares(n_, fcc)) for n_ in rs)
+    ctx.ob(R, 'find_check_cache|only-when-lazy', ok, fcc.node,
+           'the skip path can be taken by a non-lazy configure/'
+           'regenerate')
+
+    def newer(op, l, r):
+        a = has_call(l, 'max') and has(l, 'inputs') and has_call(
+            r, 'min') and has(r, 'outputs')
+        b = has_call(r, 'max') and has(r, 'inputs') and has_call(
+            l, 'min') and has(l, 'outputs')
+        return op == 'LtE' and a or op == 'GtE' and b
+    ok = bool(rs) and all(any(newer(op, l, r) for op, l, r in
+                              F.guard_compares(n_, fcc)) for n_ in rs)
+    ctx.ob(R, 'find_check_cache|newer-inputs-force-regeneration', ok,
+           fcc.node, 'an input newer than an output does not force a '
+           'full regeneration')
+    mn = F.fn(D + 'main')
+    ok = has_call(F.returns(mn), 'func')
     ctx.ob(R, 'main|returns-command-status', ok, mn.node,
            'main() does not return the status of the command')
 
